@@ -770,6 +770,7 @@ def parseDecl : Q Gen.EnumDecl := do
     let mut alts : List Nat := []
     for _ in [0:nalts] do
       let a ← qlift next
+      if a = "|" then continue   -- separator between several #[alt(..)] attributes
       match litTok a with
       | some (some v) => alts := alts ++ [v]
       | _ => throw (.badOp "lit")
